@@ -33,13 +33,27 @@ def walk (env : TEnv) (h : Heap) : List (String × Val) → Nat → Val → Walk
     | none => .unsupported
 
 /-- the indices a walk touches: `0..k` on failure at `k`, all on success -/
-def walkTouched (env : TEnv) (h : Heap) : List (String × Val) → Nat → Val → List Nat
+def walkTouched (env : TEnv) (h : Heap) : List (String × Val) → Nat → Val → List (Nat × Val)
   | [], _, _ => []
   | (op, arg) :: rest, k, cur =>
     match refAccess env h op cur arg with
-    | some (.ok v) => k :: walkTouched env h rest (k + 1) v
-    | some (.error _) => [k]
+    | some (.ok v) => (k, cur) :: walkTouched env h rest (k + 1) v
+    | some (.error _) => [(k, cur)]
     | none => []
+
+/-- what an access log of instrumented containers can see: the addresses of the
+    heap objects accessed, in order (accesses on scalars are invisible to it) -/
+def touchedAddrs (t : List (Nat × Val)) : List Nat :=
+  t.filterMap (fun p => match p.2 with | .ref a => some a | _ => none)
+
+/-- `a` is a subsequence of `b`.  An access log of instrumented containers sees
+    an access only when the primitive actually reaches the container (`int('x')`
+    fails before `list.__getitem__` runs), so "no later segment is touched"
+    is: the log is a subsequence of the containers the walk touches. -/
+def isSubseq : List Nat → List Nat → Bool
+  | [], _ => true
+  | _ :: _, [] => false
+  | a :: as, b :: bs => if a == b then isSubseq as bs else isSubseq (a :: as) bs
 
 /-- relational reading: `v` is reached from `t` by `steps` -/
 inductive Reaches (env : TEnv) (h : Heap) : Val → List (String × Val) → Val → Prop where
@@ -86,7 +100,7 @@ def checkC01 (env : TEnv) (h : Heap) (steps : List (String × Val)) (target : Va
    | .fail k e, .pae k' c g ke ie ae => k == k' && e.cls == c && g && ke && ie && ae
    | _, _ => false) &&
   (match touched with
-   | some t => t == walkTouched env h steps 0 target
+   | some t => isSubseq t (touchedAddrs (walkTouched env h steps 0 target))
    | none => true)
 
 def handlerExcs : List String :=
